@@ -116,6 +116,16 @@ def unlock_and_compare(ctx, text, cfg, want_ok, attrs, det, phrase=PASS):
         ok = False
         det = {**det, "error": f"{type(e).__name__}: {e}"[:200]}
     if want_ok and ok:
+        # every attempt is judged on its own: after a success the same object still refuses another passphrase
+        snap = dict(v.attr)
+        try:
+            v.unlock_with_phrase(phrase + "x" if phrase != "x" else "y")
+            ctx.violation({**attrs, "fail": "accepted-wrong-passphrase-after-success"}, {**det, "phrase": phrase})
+            return False
+        except Exception:  # noqa: BLE001
+            if v.attr != snap:
+                ctx.violation({**attrs, "fail": "attr-changed-on-failure", "after": "success"}, det)
+                return False
         # asking again - the same object, and a fresh object parsed from the same text - must give the same answer
         for how in ("same-object", "fresh-object"):
             v2 = v if how == "same-object" else VMX.parse(text)
